@@ -43,6 +43,11 @@ CLAIMED = {
    note="Trusted: Coq kernel + vm_compute and its primitive float/int operations (the only entries Print Assumptions lists); correspondence driver; decimal text parsing modelled as correctly rounded k/100. Partial: transitivity of IEEE '<' is not proved, so the operation clause is stated on float comparison results plus adjacent strict monotonicity; float formatting is not modelled.",
    technique="Rocq: PrimFloat model, exhaustive vm_compute over the complete finite domains, lifted with forallb_forall + induction",
    design="3/C14"),
+ "C17": dict(
+   text="Machine-checked proof: (a) for ANY live table, set_config_mode (a fold over CONFIG_MEMBERS) leaves every field of the configuration classes equal to the chosen table's value - the three tables and CONFIG_MEMBERS are regenerated by introspection on every run and Coq checks that CONFIG_MEMBERS covers every field and both tables define every member; (b) over a sleepers LTS of config_sleep's shared future, for ANY sequence of sleeps, switches and clock advances: every task sleeping at a switch is released by it at the switch time, nobody is released later than its deadline, and advancing the clock releases everything due; (c) active iff some pump or blower is on. Correspondence: real set_config_mode on the live GeckoConfig with random pre-states; real config_sleep tasks under the virtual-time loop with random scripts ((id, deadline, wake time) compared); real facade method for all on/off combinations.",
+   note="Trusted: Coq kernel + vm_compute; introspection extractor; virtual-time loop. Partial: asyncio.wait timeout / future-callback semantics are assumed as modelled (exercised, not proved); real wall-clock drift is outside the model. Closed under the global context.",
+   technique="Rocq proof (assoc-list fold lemmas; inductive invariant over arbitrary label lists) + generated tables + trace correspondence under virtual time",
+   design="3/C17"),
 }
 
 REASON_PENDING = "check not built yet in this round (model and correspondence under construction; see DESIGN.md section 8)"
